@@ -137,6 +137,8 @@ IsInt(e) == e[1] = "int"
 (* 3. Ellipsoid family of the law records (mirror of ftab() in drv_tm.cpp)  *)
 (* ------------------------------------------------------------------------ *)
 NF == 14
+NA == 5                                \* equatorial radii atab() and central scales ktab() of drv_tm.cpp
+NK == 6
 \* third flattening n = f / (2 - f) in units of 1e-9, for f = 0, 1/298.257223563 (WGS84), 1/297 (International), 1/293.465
 \* (Clarke 1880), 1/300.8017 (Everest), -1/298.257223563, +-1/150, +-0.01, +-0.02, 0.05, 0.1
 NQ == <<0, 1679220, 1686341, 1706689, 1664992, -1673600, 3344482, -3322259, 5025126, -4975124, 10101010, -9900990,
@@ -149,4 +151,44 @@ SeriesOK(fi) == Trunc(fi) > 0
 FPos(fi) == NQ[fi + 1] > 0            \* the exact form needs f > 0
 \* classes: 0 TransverseMercator (series), 1 TransverseMercator(exact), 2 TransverseMercatorExact, 3 / 4 the same with extendp
 Admissible(cls, fi) == cls = 0 \/ FPos(fi)
+
+(* ------------------------------------------------------------------------ *)
+(* 4. The branch point of the exact form (TransverseMercatorExact.hpp, constructor text; "transversemercator" page,       *)
+(*    Fig. 3(b)): lat = 0, lon - lon0 = 90 (1 - e)  <->  x / (k0 a) = K(1-e^2) - E(1-e^2), y = 0; "the scale and          *)
+(*    convergence at the branch point are 1/e and 0".  The lattice point is reached through every reflection of the       *)
+(*    group (classes 1, 2) and at -1 / 0 / +1 ulp of the longitude; extendp (classes 3, 4) has no reflections: lat = -0   *)
+(*    is the same point of both pieces of its domain.                                                                     *)
+(* ------------------------------------------------------------------------ *)
+\* expectation for Forward at the (reflected, nudged) branch point, in the vocabulary of section 2:
+\*   x: sign ax of Pred(e), |x| = x_bp;  y: 0 on the near side, +-2 y_pole on the far side (rule EquatorFarSide);
+\*   g: 0 / +-180 exactly up to the bound for d <= 0 (on the equator segment that maps to the x axis), open for d = 1
+\*      (beyond the branch point the equator leaves the axis);  k: k0 / e at d = 0 only (k is continuous but not Lipschitz)
+BpElem(cls) == IF cls >= 3 THEN {[slat |-> sl, s |-> 1, b |-> 0, wl |-> 0, w0 |-> 0] : sl \in {1, -1}}
+               ELSE {[slat |-> sl, s |-> s, b |-> b, wl |-> 0, w0 |-> 0] : sl \in {1, -1}, s \in {1, -1}, b \in {0, 1}}
+BpFwd(cls, e, d) ==
+  LET o == Pred(e) IN
+  [xs |-> IF cls >= 3 THEN 1 ELSE o.ax,
+   y |-> IF e.b = 0 THEN <<"int", 0>> ELSE <<"pm", 2>>,            \* in units of y_pole
+   g |-> IF d = 1 THEN <<"any">> ELSE IF e.b = 0 THEN <<"int", 0>> ELSE <<"pm", 180>>,
+   k |-> IF d = 0 THEN <<"int", 1>> ELSE <<"any">>]                \* in units of k0 / e
+\* grid side: the reflections of the grid point (sx, sy, far side b)
+BprElem(cls) == IF cls >= 3 THEN {<<1, sy, 0>> : sy \in {1, -1}} ELSE {<<sx, sy, b>> : sx \in {1, -1}, sy \in {1, -1}, b \in {0, 1}}
+
+(* ------------------------------------------------------------------------ *)
+(* 5. The constructor family (mirror of do_cfg in drv_tm.cpp)                *)
+(* ------------------------------------------------------------------------ *)
+\* number of documented ways to write the constructor of class cls (defaulted arguments exact = false, extendp = false
+\* written out or omitted):  TransverseMercator(a,f,k0) = (a,f,k0,false) = (a,f,k0,false,false);  (a,f,k0,true) =
+\* (a,f,k0,true,false);  TransverseMercatorExact(a,f,k0) = (a,f,k0,false);  one form each with extendp = true
+CtorForms(cls) == <<3, 2, 2, 1, 1>>[cls + 1]
+\* "With exact = true, this class delegates the calculations to the TransverseMercatorExact classes": partner class
+Delegate(cls) == <<-1, 2, 1, 4, 3>>[cls + 1]
+
+(* ------------------------------------------------------------------------ *)
+(* 6. Lower extended region / analytic continuation: conditioning factor    *)
+(* ------------------------------------------------------------------------ *)
+\* Known finding tmx-ext-lower: "loses accuracy in proportion to the scale k".  What is still owed there is the documented
+\* bound times k / k0, rounded up to the next power of two: kl = floor(log2(k / k0)), factor 2^(kl + 1) (1 for k < k0).
+Pow2(n) == IF n <= 0 THEN 1 ELSE IF n >= 31 THEN 2147483647 ELSE 2^n
+CondFactor(kl) == Pow2(kl + 1)
 =============================================================================
